@@ -235,14 +235,19 @@ def step (line : String) : String :=
     | none => "bad-op"
   | "dir-ops" :: ops =>
     -- the storage directory under stores (s:uid:contenthex) and removals (r:uid:k); output: the files, sorted by name
-    let parse (o : String) : Option Store.DirOp :=
+    -- (a removal may also name its victim by content, r@contenthex: how an implementation spells its file names is its
+    -- own business; which instance a file holds is not)
+    let step (d : Option Store.Dir) (o : String) : Option Store.Dir :=
+      d.bind fun d =>
       match o.splitOn ":" with
-      | ["s", u, c] => (hexToBytes c).map (Store.DirOp.store u)
-      | ["r", u, k] => k.toNat?.map fun k => Store.DirOp.remove (u, k)
-      | _ => none
-    match ops.mapM parse with
-    | some os =>
-      let d := Store.applyOps [] os
+      | ["s", u, c] => (hexToBytes c).map fun c => Store.applyOp d (.store u c)
+      | ["r", u, k] => k.toNat?.map fun k => Store.applyOp d (.remove (u, k))
+      | _ =>
+        match o.splitOn "@" with
+        | ["r", c] => (hexToBytes c).bind fun c => (d.find? (fun e => e.2 == c)).map fun e => Store.applyOp d (.remove e.1)
+        | _ => none
+    match ops.foldl step (some []) with
+    | some d =>
       let names := d.map fun e => s!"{e.1.1}#{e.1.2}={bytesToHex e.2}"
       " ".intercalate (names.toArray.qsort (· < ·)).toList
     | none => "bad-op"
